@@ -64,10 +64,14 @@ def _partition_get(partition, cell):
     """Calculate free capacity for given partition.
     """
     try:
-        return _admin_partition().get([partition, cell])
+        part_obj = _admin_partition().get([partition, cell])
     except admin_exceptions.NoSuchObjectResult:
+        part_obj = None
+
+    if part_obj is None:
         # pretend partition has zero capacity
-        return {'cpu': '0%', 'memory': '0G', 'disk': '0G', 'limits': []}
+        part_obj = {'cpu': '0%', 'memory': '0G', 'disk': '0G', 'limits': []}
+    return part_obj
 
 
 def _check_capacity(cell, allocation, rsrc):
@@ -298,6 +302,10 @@ class API:
                         [cell, allocation], dirty=True
                     )
                     _LOGGER.debug('Old reservation: %r', cell_alloc)
+                    if cell_alloc is None:
+                        raise exc.NotFoundError(
+                            'reservation does not exist: %s' % rsrc_id
+                        )
 
                     cell_alloc.update(rsrc)
                     _LOGGER.debug('New reservation: %r', cell_alloc)
